@@ -264,5 +264,11 @@ def run(ctx, R, tier):
     lk = ctx.fn("Pyro5.nameserver.NameServer.lookup")
     okl = any(isinstance(n, ast.Assign) and isinstance(n.value, ast.Call) and ctx.resolves_to_object(n.value.func, lk, U) for n in walk_no_nested(lk.node))
     R.check(okl, "C19-R5", "NameServer.lookup|reparses", "lookup re-parses the stored text with core.URI", lk.loc(), "lookup no longer returns core.URI(stored text)")
+    # ... and what it parses is the text it read in this very call: the URI is built from nothing the name server object remembers between calls
+    remembered = [n for n in walk_no_nested(lk.node) if isinstance(n, ast.Attribute) and isinstance(n.value, ast.Name) and n.value.id == lk.self_name and n.attr not in ("storage", "lock")
+                  and not isinstance(getattr(n, "_parent", None), ast.Call)]
+    R.check(not remembered, "C19-R5", "NameServer.lookup|from-this-call's-read-only", "the returned URI derives from the entry read in this call, not from state kept on the name server object", lk.loc(remembered[0]) if remembered else lk.loc(),
+            "lookup uses `%s`, a field of the shared name server object: under concurrent lookups (or after the entry changed) the URI handed out can be that of another name / an older registration"
+            % (unparse(remembered[0]) if remembered else ""))
     from .common import sql_setitem_writes_uri
     sql_setitem_writes_uri(ctx, R, "C19-R5")
